@@ -93,6 +93,20 @@ func c11RouteFn(id string) restful.RouteFunction {
 	}
 }
 
+// c11RouteBuilder: an entry is a sub-path, optionally followed by #xml / #json for a route that
+// is split by Produces (several routes with the same method and path).
+func c11RouteBuilder(ws *restful.WebService, i int, entry string) *restful.RouteBuilder {
+	path, prod := entry, ""
+	if k := strings.Index(entry, "#"); k >= 0 {
+		path, prod = entry[:k], entry[k+1:]
+	}
+	rb := ws.GET(path).To(c11RouteFn(fmt.Sprintf("ws%d%s", i, entry)))
+	if prod != "" {
+		rb.Produces("application/" + prod)
+	}
+	return rb
+}
+
 func sortedParams(m map[string]string) []string {
 	var out []string
 	for k, v := range m {
@@ -112,7 +126,7 @@ func newC11World(u c11Universe, routes map[int][]string) *c11World {
 			rts = routes[i]
 		}
 		for _, r := range rts {
-			ws.Route(ws.GET(r).To(c11RouteFn(fmt.Sprintf("ws%d%s", i, r))))
+			ws.Route(c11RouteBuilder(ws, i, r))
 		}
 		w.ws = append(w.ws, ws)
 	}
@@ -132,8 +146,11 @@ func (w *c11World) apply(o c11Op) (panicked string) {
 	case "remove":
 		w.c.Remove(w.ws[o.I])
 	case "route":
-		ws := w.ws[o.I]
-		ws.Route(ws.GET("/q").To(c11RouteFn(fmt.Sprintf("ws%d/q", o.I))))
+		w.ws[o.I].Route(c11RouteBuilder(w.ws[o.I], o.I, "/q"))
+	case "route-xml":
+		w.ws[o.I].Route(c11RouteBuilder(w.ws[o.I], o.I, "/q#xml"))
+	case "route-json":
+		w.ws[o.I].Route(c11RouteBuilder(w.ws[o.I], o.I, "/q#json"))
 	case "unroute":
 		root := strings.TrimRight(w.u.Roots[o.I], "/")
 		w.ws[o.I].RemoveRoute(root+"/q", "GET")
@@ -187,26 +204,31 @@ func (s c11State) next(u c11Universe, o c11Op) (c11State, bool) {
 		for _, hnd := range n.Handled {
 			n.HandledBeforeRemove[hnd] = true
 		}
-	case "route":
+	case "route", "route-xml", "route-json":
+		entry := map[string]string{"route": "/q", "route-xml": "/q#xml", "route-json": "/q#json"}[o.Kind]
 		dyn := false
 		for _, d := range u.Dynamic {
 			if d == o.I {
 				dyn = true
 			}
 		}
-		if !dyn || has(n.Routes[o.I], "/q") {
+		if !dyn || has(n.Routes[o.I], entry) {
 			return n, false
 		}
-		n.Routes[o.I] = append(n.Routes[o.I], "/q")
+		n.Routes[o.I] = append(n.Routes[o.I], entry)
 	case "unroute":
-		if !has(n.Routes[o.I], "/q") {
-			return n, false
-		}
+		// RemoveRoute(path, method) removes every route with that method and path
 		var keep []string
+		found := false
 		for _, r := range n.Routes[o.I] {
-			if r != "/q" {
-				keep = append(keep, r)
+			if r == "/q" || strings.HasPrefix(r, "/q#") {
+				found = true
+				continue
 			}
+			keep = append(keep, r)
+		}
+		if !found {
+			return n, false
 		}
 		n.Routes[o.I] = keep
 	case "handle":
@@ -237,7 +259,7 @@ func c11Ops(u c11Universe) []c11Op {
 		ops = append(ops, c11Op{"remove", i})
 	}
 	for _, i := range u.Dynamic {
-		ops = append(ops, c11Op{"route", i}, c11Op{"unroute", i})
+		ops = append(ops, c11Op{"route", i}, c11Op{"route-xml", i}, c11Op{"route-json", i}, c11Op{"unroute", i})
 	}
 	for i := range u.Patterns {
 		ops = append(ops, c11Op{"handle", i})
@@ -287,6 +309,9 @@ func c11Probes(u c11Universe) []c11Probe {
 			for _, m := range []string{"GET", "POST"} {
 				add(h.Req{Method: m, Segs: append(append([]string{}, segs...), last)}, -1)
 			}
+		}
+		for _, acc := range []string{"application/xml", "application/json"} {
+			add(h.Req{Method: "GET", Segs: append(append([]string{}, segs...), "q"), Hdr: [][2]string{{"Accept", acc}}}, -1)
 		}
 		if len(segs) > 0 {
 			add(h.Req{Method: "GET", Segs: segs}, -1)
